@@ -458,12 +458,18 @@ Definition deriver_ops (adds : list (node * N * hint * hint)) : list op :=
   flat_map (fun d => let '(n, u, o) := d in deriver_op (n, 0%N, hint_of_fact u, hint_of_fact o)) dv_default_decls
   ++ flat_map deriver_op adds.
 
+(* the user's callable innermost: every other deriver is outside mapped_view (the deriver
+   that adapts the user's callable), whatever hints and input forms were used *)
+Definition mapped_innermost (ns : list node) : bool :=
+  forallb (fun n => text_eqb n dv_forced_over || precedes ns n dv_forced_over) ns.
+
 Definition judge_derivers (adds : list (node * N * hint * hint)) (obs : val) : bool :=
   let ds := decls_of cfg_derivers (deriver_ops adds) in
   match obs with
   | VL [VI 0%Z; VL use; VL tr] =>
       match get_pairs use, map_opt get_event tr with
-      | Some use, Some tr => judge cfg_derivers ds (Sorted use) && events_eqb tr (nest_trace use)
+      | Some use, Some tr => judge cfg_derivers ds (Sorted use) && mapped_innermost (map fst use)
+                             && events_eqb tr (nest_trace use)
       | _, _ => false
       end
   | VL [VI 1%Z; o] =>
